@@ -156,12 +156,23 @@ def run(ctx):
         for nm in ('call_nowait', 'send_content_header', 'send_content_body', 'set_return_handler', 'set_pub_confirm_handler'):
             root = H0 + nm
             ctx.fn(root)
-            closure = H0 + 'send::{closure#0}'
-            seen = ctx.cg.reachable([root], blocked=(closure,))
+            # the only wait a nowait operation may reach is the read of the queued close reason after a *failed* hand-off:
+            # check_recv_for_error, called from `send` on the Err outcome of the channel send only (closure of map_err or Err arm)
+            CRE = H0 + 'check_recv_for_error'
+            seen = ctx.cg.reachable([root], blocked=(H0 + 'send::{closure#0}', CRE))
             paths = []
             for f in seen:
                 if RECV in ctx.cg.edges.get(f, ()):
                     paths.append(ctx.cg.path_to(seen, f))
-            ok = not paths
+            sev, _ = ctx.events(H0 + 'send')
+            cre = [e for e in sev if e.kind == 'call' and e.callee == CRE]
+            snd = 'mio_extras::channel::SyncSender::send(self.tx, message)'
+            on_failure = all(any(g[2] == 'closure' for g in e.guards) or (snd, 'Err(_)') in S.lits_at(e) for e in cre)
+            callers_ok = ctx.callers(CRE) <= {H0 + 'send', H0 + 'allocate_channel', 'io_loop::io_loop_handle::IoLoopHandle0::set_blocked_tx', 'io_loop::io_loop_handle::IoLoopHandle0::allocate_channel'}
+            ok = not paths and on_failure and callers_ok
+            if not on_failure:
+                paths.append(['check_recv_for_error is called outside the failed-send outcome', [S.lits_at(e) for e in cre]])
+            if not callers_ok:
+                paths.append(['callers of check_recv_for_error', sorted(ctx.callers(CRE))])
             r.check(nm, ok, ctx.site(root), built=paths, expected='no Receiver::recv reachable except through the failed-send closure of IoLoopHandle::send',
                     why='a nowait operation that waits for a reply the server never sends would hang')
